@@ -334,12 +334,12 @@ func Extract(_ *log.Logger, bucketURL string, key string, minzoom int8, maxzoom 
 		relevantSet.Or(interiorSet)
 		generalizeOr(relevantSet, uint8(minzoom))
 
-		header.MinLonE7 = int32(bound.Left() * 10000000)
-		header.MinLatE7 = int32(bound.Bottom() * 10000000)
-		header.MaxLonE7 = int32(bound.Right() * 10000000)
-		header.MaxLatE7 = int32(bound.Top() * 10000000)
-		header.CenterLonE7 = int32(bound.Center().X() * 10000000)
-		header.CenterLatE7 = int32(bound.Center().Y() * 10000000)
+		header.MinLonE7 = degreesToE7(bound.Left())
+		header.MinLatE7 = degreesToE7(bound.Bottom())
+		header.MaxLonE7 = degreesToE7(bound.Right())
+		header.MaxLatE7 = degreesToE7(bound.Top())
+		header.CenterLonE7 = degreesToE7(bound.Center().X())
+		header.CenterLatE7 = degreesToE7(bound.Center().Y())
 	} else {
 		relevantSet = roaring64.New()
 		relevantSet.AddRange(ZxyToID(uint8(minzoom), 0, 0), ZxyToID(uint8(maxzoom)+1, 0, 0))
